@@ -55,6 +55,7 @@ type Engine struct {
 	usedLemmas   map[string]bool
 	liftDone     map[string]bool // lifted lemmas whose obligations were generated in this run
 	orphans      map[string]string // contracts whose function no longer exists
+	curProp      string            // property being checked ("": all tagged clauses active)
 }
 
 type globalInfo struct {
@@ -515,4 +516,18 @@ func (e *Engine) funcObjByKey(key string) *types.Func {
 	}
 	fo, _ := p.TypesInfo.Defs[fd.Name].(*types.Func)
 	return fo
+}
+
+// tagActive: a clause tagged {C07,C08} is used (checked and assumed) only by the checks of those properties; every other
+// check proves its own obligations without it, so a change that breaks only that clause alarms only those properties.
+func (e *Engine) tagActive(tag string) bool {
+	if tag == "" || e.curProp == "" {
+		return true
+	}
+	for _, t := range strings.Split(tag, ",") {
+		if t == e.curProp {
+			return true
+		}
+	}
+	return false
 }
